@@ -1065,7 +1065,15 @@ impl Src<'_> {
             E::Var(i) => vname(*i),
             E::Fld(b, _, n) => format!("{}.{n}", self.e(b, None)),
             E::Rec(name, fs) => {
-                let body = fs.iter().map(|(n, x)| format!("{n}: {}", self.e(x, None))).collect::<Vec<_>>().join(", ");
+                // field initialisers are written in a different order than the
+                // declaration for every other record literal (they are matched by name)
+                let mut parts: Vec<String> = fs.iter().map(|(n, x)| format!("{n}: {}", self.e(x, None))).collect();
+                if name.is_some() && parts.len() % 2 == 0 {
+                    parts.reverse();
+                } else if name.is_some() && parts.len() >= 3 {
+                    parts.rotate_left(1);
+                }
+                let body = parts.join(", ");
                 match name {
                     Some(n) => format!("{n} {{ {body} }}"),
                     None => format!("{{ {body} }}"),
